@@ -50,10 +50,10 @@ PROPS = {
         ],
     ),
     'C02': dict(
-        verus=['converter', 'filters', 'overlay', 'versatiles_stream'],
+        verus=['converter', 'filters', 'overlay', 'versatiles_stream', 'mbtiles_pyramid'],
         kani=['tile_bbox_iter'],
         not_decided=[
-            'container readers (the base case): the versatiles chunk grouping is under contract (unit versatiles_stream), the selection of index entries (iterator chain), the range reads and slicing, the SQL range query and the default lookup loop are not',
+            'container readers (the base case): the versatiles chunk grouping is under contract (unit versatiles_stream), the MBTiles box query equals the lookups relative to the SQL snippet table (unit mbtiles_pyramid); the selection of index entries of the versatiles stream (iterator chain), its range reads and slicing, PMTiles/tar/directory default lookup loops are not',
             'overlay: the split of a request into iter_bbox_grid(32) cells and the concatenation of the cell streams (the per-cell stream is under contract); merge stream paths',
             'multiplicity (each tile once): streams are modelled as finite maps',
         ],
